@@ -14,6 +14,7 @@
 
 #ifdef KALIGN_VERIF
 void (*kalign_verif_cb)(int kind, const void *obj, int a, int b, int c);
+int (*kalign_verif_unusual_cb)(int site, long key);
 #endif
 
 int g_hooks_log_on;
@@ -174,7 +175,7 @@ static void log_event(int kind, int oid, int a, int b, int c)
     g_evcount++;
     g_evhash = mix(g_evhash, ((uint64_t)kind << 56) ^ ((uint64_t)fib << 44) ^ ((uint64_t)(unsigned)a << 24) ^ ((uint64_t)(unsigned)b << 12) ^ (uint64_t)(unsigned)c);
     /* object ids are NOT hashed: they depend on address reuse by the allocator */
-    if (g_hooks_log_on) {
+    if (g_hooks_log_on == 1 || (g_hooks_log_on == 2 && (kind == KV_MERGE_BEGIN || kind == KV_MERGE_END))) {     /* evlog 2: merges only (tree shape probes) */
         if (g_log_n == g_log_cap) { g_log_cap = g_log_cap ? g_log_cap * 2 : 4096; g_log = sim_xrealloc(g_log, g_log_cap * sizeof *g_log); }
         EvRec *e = &g_log[g_log_n++];
         e->seq = g_evcount; e->kind = kind; e->fiber = fib; e->oid = oid; e->a = a; e->b = b; e->c = c;
@@ -291,10 +292,21 @@ void hooks_on_switch(void)
     if (g_merges_active >= 1) g_probe[PR_MERGE_PREEMPTED]++;
 }
 
+/* cooperative unusual-branch points: a pure function of (job seed, site, key), so the sequential reference and every
+   schedule of one job take the same side at the same place */
+static int unusual(int site, long key)
+{
+    if (!W.unusual_seed) return 0;
+    uint64_t h = mix(mix(W.unusual_seed, (uint64_t)site), (uint64_t)key);
+    if ((h >> 17) & 1) { g_probe[PR_UNUSUAL_TAKEN]++; return 1; }
+    return 0;
+}
+
 void hooks_install(void)
 {
 #ifdef KALIGN_VERIF
     kalign_verif_cb = handler;
+    kalign_verif_unusual_cb = unusual;
 #else
     (void)handler;
 #endif
